@@ -301,6 +301,21 @@ def normalize_unpack_result(case, res):
     return {"err": True}
 
 
+def normalize_unpack_pair(case, impl, model):
+    """as normalize_unpack_result, but the reason is only compared when the model confirms that the injected fault is
+    the only one (the fault-free twin `validFrom` unpacks in the model: no `multi` marker)"""
+    strict = bool(case.get("strictErr")) and not (isinstance(model, dict) and model.get("multi"))
+    def norm(res):
+        if case.get("k") != "unpack" or not isinstance(res, dict):
+            return res
+        if "err" not in res:
+            return {k: v for k, v in res.items() if k != "multi"}
+        if strict:
+            return {"err": {"reason": res["err"].get("reason")}}
+        return {"err": True}
+    return norm(impl), norm(model)
+
+
 def fault_points(ty, cfg, path=(), vtag=""):
     """all (path, kind, replacement GoData) at which one setting of cfg can be made faulty for a target of type ty"""
     out = []
